@@ -90,6 +90,8 @@ def replay_run(sc):
         n_rep = int(res.Nl[l]) if l < len(res.Nl) else None
         if n_rep is not None and n_rep != len(S):
             details.append(f"level {l}: reported N_l = {n_rep} but {len(S)} samples were simulated")
+        if S and l in reg.costs and l < len(res.cl) and abs(float(res.cl[l]) - float(reg.costs[l])) > 1e-9 * max(1.0, float(reg.costs[l])):
+            details.append(f"level {l}: reported cost per sample cl = {float(res.cl[l])!r} but every sample of that level cost {float(reg.costs[l])!r}")
     got = float(stats.price())
     if abs(got - want) > 1e-9 * max(1.0, abs(want)):
         details.append(f"price {got!r} vs sum of per-level sample means over the simulated samples {want!r}")
